@@ -4,7 +4,10 @@ Engine N: every string over a small alphabet that contains each lexically intere
 class (lower/upper letter, digit, underscore, both quote characters, blank, newline, a non-ASCII
 letter, an astral code point) up to a length bound, plus every CQL keyword in three letter cases,
 is passed through the driver's quoting functions; the result is read by the independent CQL lexer
-`vt.spec.cqllex` and must denote the original name / text.
+`vt.spec.cqllex` and must denote the original name / text.  Characters that mean something in a
+neighbouring syntax but nothing inside a CQL literal or quoted name (backslash, $, %, ;, -, /, *, NUL,
+tab) are enumerated too: one symbol shorter for all functions, at full length for the two value
+functions over an alphabet of their own.
 """
 import itertools
 
@@ -15,11 +18,15 @@ META = {
     'level': 'exploration',
     'engine': 'N',
     'technique': 'bounded-exhaustive string enumeration, output read back by an independent CQL lexer',
-    'text': 'All strings of length <=4 (quick) / <=5 (thorough) over {a,A,z,0,_,",\',space,newline,e-acute,emoji,arabic-indic digit three} '
+    'text': 'All strings of length <=4 (quick) / <=5 (thorough) over {a,A,z,0,_,",\',space,newline,e-acute,emoji,arabic-indic digit three}, '
+            'all strings of length <=3 / <=4 over that alphabet extended by {backslash,$,%,;,-,/,*,NUL,tab} (characters with a meaning in '
+            'neighbouring syntaxes: escapes, $$ strings, format strings, statement end, comments) '
             '(cql_quote also with a str subclass whose str() differs from its value, length <=3), '
             'the empty string and every reserved/unreserved CQL keyword (Cassandra and DSE lists) in lower, UPPER and '
             'Capitalised form are given to protect_name, protect_names, maybe_escape_name, escape_name, is_valid_name, '
-            'protect_value and cql_quote; the independent lexer must read each identifier result as exactly one '
+            'protect_value and cql_quote; protect_value and cql_quote are also given all strings of length <=4 / <=5 over '
+            '{a,\',",space,newline,e-acute,backslash,$,%,;,-,/,*,NUL,tab}; '
+            'the independent lexer must read each identifier result as exactly one '
             'identifier equal to the input (a bare word only if lower-casing leaves it unchanged and Cassandra does '
             'not reserve it) and each value result as exactly one string literal equal to the input.',
     'note': 'Trusted: vt/spec/cqllex.py (written from Cassandra Lexer.g/Parser.g/ReservedKeywords.java 4.x, self-tested on '
@@ -28,6 +35,11 @@ META = {
 }
 
 ALPHABET = ['a', 'A', 'z', '0', '_', '"', "'", ' ', '\n', 'é', '\U0001F600', '\u0663']   # U+0663: a decimal digit that is not ASCII
+# characters that are special in a neighbouring syntax (C/python/SQL escapes, $$ strings, % formatting, statement end,
+# -- // /* */ comments, C strings, the lexer's other blank) but ordinary inside a CQL '...' literal or "..." name
+FOREIGN = ['\\', '$', '%', ';', '-', '/', '*', '\x00', '\t']
+WIDE_ALPHABET = ALPHABET + FOREIGN                      # all functions, one symbol shorter
+VALUE_ALPHABET = ['a', "'", '"', ' ', '\n', 'é'] + FOREIGN   # protect_value / cql_quote only, full length
 
 
 class Loud(str):
@@ -40,10 +52,10 @@ class Loud(str):
         return 'LOUD'
 
 
-def words(maxlen):
+def words(maxlen, alphabet=ALPHABET):
     out = ['']
     for n in range(1, maxlen + 1):
-        for t in itertools.product(ALPHABET, repeat=n):
+        for t in itertools.product(alphabet, repeat=n):
             out.append(''.join(t))
     return out
 
@@ -128,10 +140,21 @@ def check_value(part, fn, s, out):
     return 'string'
 
 
-def run_one(part, s, which=None):
+def value_class(s):
+    if '\\' in s:
+        return 'has-backslash'
+    if "'" in s:
+        return 'has-quote'
+    return 'has-foreign' if any(c in s for c in FOREIGN) else 'no-quote'
+
+
+def run_one(part, s, which=None, values_only=False):
+    """values_only: s comes from the value alphabet, only protect_value / cql_quote are asked"""
     import cassandra.metadata as md
     import cassandra.encoder as enc
     cls = classify(s)
+    if values_only and not which:
+        which = 'VALUES'
 
     def call(fn, f, *a):
         try:
@@ -170,13 +193,13 @@ def run_one(part, s, which=None):
         elif ok:
             part.outcome(('is_valid_name', cls, 'says-quote'))
     for fn, f in (('protect_value', md.protect_value), ('cql_quote', enc.cql_quote)):
-        if which and which.split('/')[0] != fn:
+        if which and which != 'VALUES' and which.split('/')[0] != fn:
             continue
         part.count('evaluations')
         ok, out = call(fn, f, s)
         if ok:
             r = check_value(part, fn, s, out)
-            part.outcome((fn, 'has-quote' if "'" in s else 'no-quote', r))
+            part.outcome((fn, value_class(s), r))
         if fn == 'cql_quote' and len(s) <= 3:
             part.count('evaluations')
             ok, out = call(fn, f, Loud(s))
@@ -187,12 +210,18 @@ def run_one(part, s, which=None):
         part.mark_nontrivial(s)
 
 
-def run_chunk(items):
+def run_chunk(args):
+    items, value_items = args
     part = Part()
     for s in items:
         run_one(part, s)
         if classify(s) in ('word-plus-newline', 'reserved-keyword', 'needs-quotes'):
             part.sample({'input': s}, limit=1)
+    for s in value_items:
+        part.count('value_only_inputs')
+        run_one(part, s, values_only=True)
+        if '\\' in s:
+            part.sample({'input': s, 'functions': 'protect_value, cql_quote'}, limit=1)
     return part
 
 
@@ -201,12 +230,15 @@ def run(ctx):
         raise HarnessError('cqllex selftest failed')
     import cassandra.metadata as md
     maxlen = 4 if ctx.quick else 5
-    items = words(maxlen) + keyword_inputs()
+    items = words(maxlen) + words(maxlen - 1, WIDE_ALPHABET) + keyword_inputs()
     items = list(dict.fromkeys(items))
-    n = len(items)
+    seen = set(items)
+    value_items = [s for s in words(maxlen, VALUE_ALPHABET) if s not in seen]
+    n, nv = len(items), len(value_items)
     items = ctx.rotate(items)
+    value_items = ctx.rotate(value_items)
     k = max(1, ctx.nproc)
-    for part in ctx.pmap(run_chunk, [items[i::k] for i in range(k) if items[i::k]]):
+    for part in ctx.pmap(run_chunk, [(items[i::k], value_items[i::k]) for i in range(k) if items[i::k] or value_items[i::k]]):
         ctx.merge(part)
     # keyword list comparison (reported in the evidence, not a verdict: extra reserved words only over-quote)
     drv_res = set(md.cql_keywords_reserved)
@@ -214,9 +246,12 @@ def run(ctx):
         'reserved_in_cassandra_not_in_driver': sorted(cqllex.RESERVED - drv_res),
         'reserved_in_driver_only (DSE words, harmless over-quoting)': sorted(drv_res - cqllex.RESERVED),
     }
-    ctx.cov['rule'] = ('%d inputs = all strings of length <=%d over an %d-symbol alphabet + empty + every keyword x 3 casings; '
-                       '7 functions each; non-trivial = input that is not already a plain lower-case word '
-                       '(needs quoting, is a keyword, has upper case, or is empty)' % (n, maxlen, len(ALPHABET)))
+    ctx.cov['rule'] = ('%d inputs = all strings of length <=%d over an %d-symbol alphabet + all strings of length <=%d over that '
+                       'alphabet and %d characters of neighbouring syntaxes (backslash $ %% ; - / * NUL tab) + empty + every keyword '
+                       'x 3 casings, 7 functions each; %d further inputs = all other strings of length <=%d over the %d-symbol value '
+                       'alphabet, protect_value and cql_quote only; non-trivial = input that is not already a plain lower-case word '
+                       '(needs quoting, is a keyword, has upper case, or is empty)'
+                       % (n, maxlen, len(ALPHABET), maxlen - 1, len(FOREIGN), nv, maxlen, len(VALUE_ALPHABET)))
     ctx.cov['exhaustive'] = True
     ctx.assume('Cassandra lexes and reserves words as in Lexer.g / ReservedKeywords.java of 4.x (62 reserved words); '
                'later additions to the reserved list (if any) are not modelled')
